@@ -24,6 +24,7 @@ import copy
 import json
 import math
 import random
+import warnings
 from fractions import Fraction
 from pathlib import Path
 
@@ -484,6 +485,30 @@ def _run_validate(drv: Driver, case: dict, res: Result):
             res.fails.append(Fail("accept-iff-fits", f"Sequence(MappableRegister) -> {real}; fits={fits}",
                                   error=real[0]))
         res.nontrivial = nt >= 2
+        # the register a mappable sequence is BUILT with is a register given to the device like any other:
+        # build() returns a sequence on it iff it fits (harness's own exact computation)
+        bt = case.get("build_traps")
+        if real[0] == "ok" and bt and len(bt) <= n and not res.ambiguous:
+            seq_m = pulser.Sequence(MappableRegister(L, *[f"q{i}" for i in range(n)]), dev)
+            try:
+                want_reg = L.define_register(*bt, qubit_ids=[f"q{i}" for i in range(len(bt))])
+            except Exception as e:  # noqa: BLE001
+                raise InputNotConstructible(f"{type(e).__name__}: {str(e)[:80]}") from e
+            fits_b, amb_b, why = independent_fit(g, want_reg)
+            try:
+                with warnings.catch_warnings():
+                    warnings.simplefilter("ignore")
+                    built = seq_m.build(qubits={f"q{i}": t for i, t in enumerate(bt)})
+                got = "ok"
+            except Exception as e:  # noqa: BLE001
+                built, got = None, type(e).__name__
+            if not amb_b and (got == "ok") != fits_b:
+                res.fails.append(Fail("accept-iff-fits",
+                                      f"build(qubits={len(bt)} of {n} ids on traps {bt}) of a mappable sequence -> {got}; "
+                                      f"the built register fits={fits_b} ({why or 'all limits met'})",
+                                      error=got, via="mappable-build"))
+            if built is not None and not same_positions(positions_of(built.register), positions_of(want_reg)):
+                res.foreign = "build() does not place the qubits on the mapped traps (C08/C19)"
     res.outcome = real[0] if real[0] != "layout" else "layout-" + real[1]
     # ---- correspondence ----
     res.evals += 1
@@ -1083,15 +1108,26 @@ def gen_case(rng: random.Random) -> dict:
         if lay is None:
             return gen_case(rng)
         k = rng.random()
-        if k < 0.65:
+        if k < 0.5:
             return dict(kind="vreg", scenario="layout", dev=g, layout=lay,
                         via="sequence" if rng.random() < 0.2 else "validate")
-        if k < 0.85:
+        if k < 0.65:
             return dict(kind="vlay", scenario="layout", dev=g, traps=lay["traps"])
         nt = len(lay["traps"])
         mq = math.floor(Fraction(nt) * F(g["max_filling"]))
-        return dict(kind="vmap", scenario="mappable", dev=g, traps=lay["traps"],
-                    n=min(nt, max(0, mq + rng.choice([-1, 0, 1]))))
+        n = min(nt, max(0, mq + rng.choice([-1, 0, 1])))
+        c = dict(kind="vmap", scenario="mappable", dev=g, traps=lay["traps"], n=n)
+        if n >= 1 and rng.random() < 0.85:
+            # the sequence is also built: on k of its ids, with the atom-number limit at, just below or above k
+            k = rng.choice([n, n, max(1, n - 1), rng.randrange(1, n + 1)])
+            c["build_traps"] = sorted(rng.sample(range(nt), k))
+            if rng.random() < 0.5:
+                g["max_atoms"] = max(1, k + rng.choice([-1, 0, 0, 1]))
+                try:
+                    make_device(g)
+                except Exception:  # noqa: BLE001
+                    return gen_case(rng)
+        return c
     if r < 0.9:
         return dict(kind="mkdev", scenario="params", params=gen_mkdev(rng))
     if r < 0.96:
